@@ -9,6 +9,30 @@ CLAIMED = {
          "Every ordered clause list of the tiny spaces named in the evidence is enumerated completely (exhaustive sub-check); beyond that, generated formulas up to 160 variables x {3 entry points} x {certificate on/off} x {learned-clause limit default or lowered via the verif hook} are solved and each answer is validated independently: truth table up to 20 variables, DPLL up to 60, model evaluation and replay of the refutation by a from-scratch RUP checker above. Exploration: held on everything generated; classes (conflicts, clause deletion, restarts) are measured and floored.",
          "Trusts harness/oracle (truth table, DPLL, RUP checker). Lowered learned-clause limit is always > number of variables (see DESIGN 2.1). Activity rescaling (>1e30) is not reached.",
          "DESIGN.md 4/C01"),
+ "C02": ("rapid property-based generation of cardinality/PB constraint sets through both public front-ends, integer-arithmetic truth-table oracle over the constraints as written",
+         "Generated constraint sets (n<=10, coefficients of either sign incl. 0, degrees from below the minimum to above the maximum, relations >=,<=,=, unit constraints mixed in) are solved and verdict + model are compared with integer arithmetic over all 2^n assignments. Exploration with measured class distribution and a non-triviality floor.",
+         "Precondition kept from the statement: each variable at most once per constraint; LtEq/Eq always get explicit weights. Trusts oracle.Constr evaluation.",
+         "DESIGN.md 4/C02"),
+ "C03": ("rapid generation of (constraint set, cost function) pairs incl. covering-style instances and OPB objectives with negative coefficients; brute-force minimum oracle; three entry points compared",
+         "Every generated instance is optimised through Optimal(nil), Optimal(chan) and Minimize+Model on fresh solvers; status, model validity, reported cost = cost function on the model = brute-force minimum are asserted. Covering-style generators make the search perform several strengthening rounds (measured: stream length >=2).",
+         "Cost literals are restricted to variables of the problem (precondition of SetCostFunc observed from callers). Minimize's -1 convention is only checked for non-negative costs.",
+         "DESIGN.md 4/C03"),
+ "C04": ("rapid generation of weighted partial MaxSAT instances through the constraint API (each built and solved 3 times: map-ordered cost function) and as WCNF text; brute-force oracle",
+         "hard-unsat <=> nil model / Unsat; otherwise the returned assignment satisfies the hard constraints, has exactly the user's variables (API) / the declared variable count (WCNF), and reported cost = weight of violated soft constraints = brute-force minimum.",
+         "Positive coefficients only; WCNF clauses one per line (DESIGN 7.6). Trusts the brute-force evaluator.",
+         "DESIGN.md 4/C04"),
+ "C05": ("rapid generation of CNF/cardinality/PB problems with forced corner classes; truth-table model set vs CountModels, Enumerate(nil), Enumerate(chan) (multiset equality of delivered models)",
+         "All three counting entry points, each on a fresh solver, must equal the truth-table count over the declared variables, and the channel must deliver every satisfying total assignment exactly once and be closed.",
+         "n <= 10 so that the model set is enumerable. Trusts the truth table.",
+         "DESIGN.md 4/C05"),
+ "C09": ("stateful property-based testing: generated histories (Solve | AppendClause of clause/cardinality/PB constraint) with oracle-aimed additions, invariant checked after every Solve against a truth table of the whole conjunction; whole history shrinks as one value",
+         "After every Solve of a generated history the verdict equals the truth table of base AND all additions, the model satisfies the conjunction, and Unsat is permanent. Additions are aimed (entailed / contradictory / against a model / new variables) by the harness's own oracle.",
+         "Total variables <= 10; card/PB additions over distinct variables with positive weights. Histories mixing AppendClause with Assume are outside the property.",
+         "DESIGN.md 4/C09"),
+ "C10": ("stateful property-based testing: generated sequences of assumption rounds (repeated, self-contradicting, contradicting facts / the previous round) on small and conflict-rich bases; per-round truth-table oracle",
+         "Each round's verdict must equal satisfiability of base AND that round's assumptions only; Sat models must satisfy every base clause (unit clauses included) and all current assumptions; Assume returning Unsat must be justified.",
+         "n <= 20 (truth table per round). Bases are CNF via ParseSliceNb.",
+         "DESIGN.md 4/C10"),
 }
 checks = []
 for p in props:
